@@ -32,6 +32,13 @@ NEUTRAL_STYLE = ("a third kind of clean-up than simple renames or extract-method
 
 
 NEUTRAL_STYLES = {
+    "R": ("pick TWO OR THREE different kinds of modernising clean-up and apply them to different anchor functions: extract an ASYNC private helper "
+          "that contains one of the awaits together with the statements around it (`await self._helper(...)` at the same place; order of effects "
+          "and suspension points unchanged); use the walrus operator (`if (x := f()) is not None:`); use `match`/`case` for a dispatch on constants "
+          "or enum members (Python >= 3.10 is the minimum here) ONLY where the semantics are exactly those of the if/elif chain; replace an explicit "
+          "search loop by `any()` / `all()` / `next((... for ...), default)`; replace a boolean flag variable by early returns or `for ... else`; "
+          "restructure `try/except/else` keeping exactly the same statements protected; replace `x if x is not None else y` patterns by equivalent "
+          "statements; use `dict.setdefault` / `collections.defaultdict` / `dict.get(k, default)` where exactly equivalent"),
     "Q": ("pick TWO OR THREE different kinds of clean-up and apply them to different anchor functions: extract a private helper method from a long "
           "function (keeping every await in the caller or moving the whole awaited block); inline a tiny private helper into its only caller; hoist a "
           "repeated attribute chain (`self._a.b`) into a local; turn an index loop into `enumerate`/`zip`; replace manual dict building by a "
